@@ -27,6 +27,71 @@ func init() { drivers["vhostmux"] = runVhostMux }
 
 const muxTimeout = 300 * time.Millisecond
 
+// delayListener holds back the write that carries the CONNECT answer (the muxer goroutine being descheduled, or
+// blocked in the kernel, right before its write); nothing else is touched.
+type delayListener struct {
+	net.Listener
+	d time.Duration
+}
+
+type delayConn struct {
+	net.Conn
+	d time.Duration
+}
+
+func (l delayListener) Accept() (net.Conn, error) {
+	c, err := l.Listener.Accept()
+	if err != nil {
+		return nil, err
+	}
+	return delayConn{c, l.d}, nil
+}
+
+func (c delayConn) Write(p []byte) (int, error) {
+	if bytes.HasPrefix(p, []byte("HTTP/1.")) {
+		time.Sleep(c.d)
+	}
+	return c.Conn.Write(p)
+}
+
+// runFirstCase: tcpmux without passthrough, backend speaks first.
+func runFirstCase(addr string, delay time.Duration, down []byte, seed int64) (string, string) {
+	ln, err := net.Listen("tcp", net.JoinHostPort(addr, "0"))
+	if err != nil {
+		return "", err.Error()
+	}
+	defer ln.Close()
+	domain := fmt.Sprintf("f%d.example.test", seed%1000)
+	m, err := tcpmux.NewHTTPConnectTCPMuxer(delayListener{ln, delay}, false, 2*time.Second)
+	if err != nil {
+		return "", err.Error()
+	}
+	l, err := m.Listen(context.Background(), &vhost.RouteConfig{Domain: domain})
+	if err != nil {
+		return "", err.Error()
+	}
+	go func() { // the proxy goroutine: owns the connection from the hand-off on and relays the backend's greeting
+		c, err := l.Accept()
+		if err != nil {
+			return
+		}
+		_, _ = c.Write(down)
+		time.Sleep(600 * time.Millisecond)
+		c.Close()
+	}()
+	u, err := net.DialTimeout("tcp", ln.Addr().String(), 2*time.Second)
+	if err != nil {
+		return "", err.Error()
+	}
+	defer u.Close()
+	if _, err := fmt.Fprintf(u, "CONNECT %s:80 HTTP/1.1\r\nHost: %s:80\r\n\r\n", domain, domain); err != nil {
+		return "", err.Error()
+	}
+	_ = u.SetReadDeadline(time.Now().Add(3 * time.Second))
+	got, _ := io.ReadAll(u)
+	return fmt.Sprintf("CMuxFirst %d %s %s", delay.Milliseconds(), hx.Hx(down), hx.Hx(got)), ""
+}
+
 type muxCase struct {
 	kind    int // 0 https, 1 tcpmux, 2 tcpmux passthrough
 	ageMs   int
@@ -174,9 +239,24 @@ func runVhostMux(cfg *hx.RunCfg) error {
 		}
 		mcs = append(mcs, muxCase{kind: i % 3, ageMs: age, payload: g.Bytes(g.Intn(3000)), down: g.Bytes(1 + g.Intn(3000)), seed: cfg.Seed*100 + int64(i)})
 	}
-	cases := make([]string, len(mcs))
-	errs := make([]string, len(mcs))
+	nfirst := 4
+	cases := make([]string, len(mcs)+nfirst)
+	errs := make([]string, len(mcs)+nfirst)
 	var wg sync.WaitGroup
+	for k := 0; k < nfirst; k++ {
+		wg.Add(1)
+		down := g.Bytes(1 + g.Intn(200))
+		for i := range down { // a greeting without CR/LF so that it cannot be mistaken for a header end
+			if down[i] == 13 || down[i] == 10 {
+				down[i] = 'x'
+			}
+		}
+		delay := time.Duration(k%2) * 120 * time.Millisecond
+		go func(k int) {
+			defer wg.Done()
+			cases[len(mcs)+k], errs[len(mcs)+k] = runFirstCase("127.0.1.9", delay, down, cfg.Seed*100+int64(50+k))
+		}(k)
+	}
 	for i := range mcs {
 		wg.Add(1)
 		go func(i int) {
@@ -189,6 +269,15 @@ func runVhostMux(cfg *hx.RunCfg) error {
 	var fails []map[string]string
 	dist := map[string]int{}
 	for i, c := range cases {
+		if i >= len(mcs) {
+			if errs[i] != "" {
+				fails = append(fails, map[string]string{"key": "vhostmux-setup:first", "what": "backend-speaks-first case failed before the comparison: " + errs[i], "case": "tcpmux backend speaks first"})
+				continue
+			}
+			out = append(out, c)
+			dist["tcpmux backend speaks first"]++
+			continue
+		}
 		if errs[i] != "" {
 			fails = append(fails, map[string]string{"key": fmt.Sprintf("vhostmux-setup:kind%d", mcs[i].kind), "what": "vhost muxer case failed before the comparison: " + errs[i],
 				"case": fmt.Sprintf("kind=%d age=%d", mcs[i].kind, mcs[i].ageMs)})
@@ -199,7 +288,8 @@ func runVhostMux(cfg *hx.RunCfg) error {
 	}
 	cf := &hx.CaseFile{Imports: imports, Typ: "case", Cases: out,
 		Tail: "Definition M := Eval vm_compute in mismatches check_case cases.\nPrint M.\n" +
-			"Definition NAGED := Eval vm_compute in count_if is_aged_mux cases.\nPrint NAGED.\n"}
+			"Definition NAGED := Eval vm_compute in count_if is_aged_mux cases.\nPrint NAGED.\n" +
+			"Definition NFIRST := Eval vm_compute in count_if is_first cases.\nPrint NFIRST.\n"}
 	if err := cf.Write(cfg.Out); err != nil {
 		return err
 	}
